@@ -61,8 +61,13 @@ Deletes(s) == IF s.cont = "dict" THEN {F("value", s.id, "delete", "", 0, 0, "")}
 \* ref_self: at the enclosing object (Kids [self], /Length n 0 R inside object n, object n = n 0 R)
 \* ref_missing: at an object number the file does not define
 \* ref_loop1 / ref_loop2: at an object whose whole value is a reference to itself / to an object that refers back
-RefFaults(s) == (IF s.ownerobj # 0 THEN {F("value", s.id, "ref_self", "", 0, 0, "")} ELSE {})
-                \cup {F("value", s.id, k, "", 0, 0, "") : k \in {"ref_missing", "ref_loop1", "ref_loop2"}}
+\* The option dimension: every entry point can be run with its caches off (caching=False / disable_caching=True),
+\* which changes what a cycle guard can rely on (getobj then returns a fresh object on every request).  Every fault
+\* that closes a cycle is enumerated twice: mode "" (caches on, the default) and mode "nocache".
+CycleKinds == {"ref_self", "ref_loop1", "ref_loop2", "off_self", "off_cycle", "off_self_ws", "off_cycle_ws", "ent_in_self"}
+Modes(k) == IF k \in CycleKinds THEN {"", "nocache"} ELSE {""}
+RefKinds(s) == (IF s.ownerobj # 0 THEN {"ref_self"} ELSE {}) \cup {"ref_missing", "ref_loop1", "ref_loop2"}
+RefFaults(s) == UNION {{F("value", s.id, k, "", 0, 0, m) : m \in Modes(k)} : k \in RefKinds(s)}
 \* the same for values that are file positions (Prev, XRefStm, startxref): own section, past the end of the file,
 \* the newest section (so that every chain reaching it starts over), the middle of an object
 \* Offsets come in two styles: the first byte of the target (`xref`, or the object number of a cross-reference stream)
@@ -70,7 +75,7 @@ RefFaults(s) == (IF s.ownerobj # 0 THEN {F("value", s.id, "ref_self", "", 0, 0, 
 \* styled kinds: off_ws - the right target, in the second style; off_self_ws / off_cycle_ws - the two cycle faults in
 \* the second style (a cycle guard that remembers positions must not depend on the style)
 OffKinds == {"off_self", "off_dangling", "off_cycle", "off_garbage", "off_ws", "off_self_ws", "off_cycle_ws"}
-OffFaults(s) == {F("value", s.id, k, "", 0, 0, "") : k \in OffKinds}
+OffFaults(s) == UNION {{F("value", s.id, k, "", 0, 0, m) : m \in Modes(k)} : k \in OffKinds}
 
 \* ------------------------------------------------------------------ encrypted documents: a string that is no ciphertext
 \* Every other replacement value is written the way a writer would write it - encrypted.  In an encrypted document
@@ -88,12 +93,16 @@ Positions(n, stride) == {p \in 0..(n - 1) : p % stride = 0 \/ p = n - 1}
 PayloadFaults(t) ==
   {F("payload", t.id, "corrupt", "", 0, p, m) : p \in Positions(t.plen, PayloadStride), m \in {"flip", "low"}}
   \cup {F("payload", t.id, "truncate", "", 0, p, "") : p \in Positions(t.plen, PayloadStride)}   \* p bytes are kept
-FileFaults(S) == {F("file", "", "truncate", "", 0, p, "") : p \in Positions(S.flen, FileStride)}
+\* The one combination of faults in the space: every element of every /Kids array written twice, at every level at
+\* once.  A single duplicated kid doubles one subtree; all of them together make a tree of depth d a "diamond chain"
+\* with 2**d paths - a traversal must still visit every node once (work in proportion to the input).
+MultiFaults == {F("multi", "", "dup_kids_all", "", 0, 0, m) : m \in {"", "nocache"}}
+FileFaults(S) == {F("file", "", "truncate", "", 0, p, "") : p \in Positions(S.flen, FileStride)} \cup MultiFaults
 
 \* ------------------------------------------------------------------ cross-reference entries
 EntKinds(e) == {"ent_dangling", "ent_other", "ent_mid", "ent_free"} \cup
                (IF e.form = "stream" THEN {"ent_in_self", "ent_in_missing", "ent_in_nonstream", "ent_idx_big"} ELSE {})
-EntFaults(e) == {F("xrefent", e.id, k, "", 0, 0, "") : k \in EntKinds(e)}
+EntFaults(e) == UNION {{F("xrefent", e.id, k, "", 0, 0, m) : m \in Modes(k)} : k \in EntKinds(e)}
 
 \* ------------------------------------------------------------------ anchors: where a fault can sit
 \* one record shape for sites, stream payloads, cross-reference entries and the file as a whole
@@ -122,14 +131,15 @@ PerSiteRetypes(s) ==
       rn == Cardinality(BaseKinds \ {s.base, "null", "stream"})
   IN d1 + dn * NV + r1 + rn * NV
 PerSite(s) == PerSiteRetypes(s) + (IF s.cont = "dict" THEN 1 ELSE 0)
-              + (IF s.cls = "offset" THEN 7 ELSE 3 + (IF s.ownerobj # 0 THEN 1 ELSE 0))
+              \* offsets: 7 kinds, 4 of them cycles (x 2 modes); values: ref_missing + 2 loops x 2 modes (+ ref_self x 2)
+              + (IF s.cls = "offset" THEN 11 ELSE 5 + (IF s.ownerobj # 0 THEN 2 ELSE 0))
               + (IF s.enc /\ s.cls = "value" THEN Cardinality(RawForms) ELSE 0)
 NPos(n, stride) == IF n = 0 THEN 0 ELSE ((n - 1) \div stride) + 1 + (IF (n - 1) % stride = 0 THEN 0 ELSE 1)
 ExpectedAt(a) ==
   CASE a.t = "site"   -> PerSite(a)
     [] a.t = "stream" -> 3 * NPos(a.n, PayloadStride)
-    [] a.t = "ent"    -> IF a.form = "stream" THEN 8 ELSE 4
-    [] a.t = "file"   -> NPos(a.n, FileStride)
+    [] a.t = "ent"    -> IF a.form = "stream" THEN 9 ELSE 4
+    [] a.t = "file"   -> NPos(a.n, FileStride) + 2
 \* faults at different anchors differ in their site / class fields, so the space is the disjoint union over anchors
 ExpectedCount(S) == FoldSet(LAMBDA a, n : n + ExpectedAt(a), 0, Anchors(S))
 
@@ -172,9 +182,12 @@ Applicable ==
          /\ (fault.kind = "rawstr" => at.enc /\ at.cls = "value" /\ fault.variant \in RawForms)
     [] fault.cls = "payload" -> at.t = "stream" /\ fault.site = at.id /\ fault.pos < at.n
     [] fault.cls = "file" -> at.t = "file" /\ fault.pos < at.n
+    [] fault.cls = "multi" -> at.t = "file" /\ fault.kind = "dup_kids_all"
     [] fault.cls = "xrefent" -> at.t = "ent" /\ fault.site = at.id /\ fault.kind \in EntKinds(at)
 \* ... and changes the document: a retype never plants the kind that is already there
 Damaging == Damaged /\ fault.cls = "value" /\ fault.kind = "retype" => KindOf(fault.to) # at.base
+\* the caches are switched off for cycle faults only (and the dup_kids_all combination)
+ModeOK == Damaged /\ fault.mode = "nocache" => fault.kind \in CycleKinds \cup {"dup_kids_all"}
 
 \* every (site, kind) pair of the property text is present at the anchor a state's fault sits on
 KindsPresent ==
@@ -188,11 +201,13 @@ KindsPresent ==
          /\ (at.cls = "value" =>
                /\ \A k \in {"ref_missing", "ref_loop1", "ref_loop2"} : \E g \in sp : g.kind = k       \* nowhere / cycle
                /\ (at.ownerobj # 0 => \E g \in sp : g.kind = "ref_self")                           \* itself
+               /\ \A g \in sp : g.kind \in CycleKinds => F("value", at.id, g.kind, "", 0, 0, "nocache") \in sp  \* caches off too
                /\ (at.enc => \A v \in RawForms : \E g \in sp : g.kind = "rawstr" /\ g.variant = v))  \* no ciphertext
     [] at.t = "stream" ->                                      \* every position: damaged, and cut
          /\ {g.pos : g \in {h \in sp : h.kind = "corrupt" /\ h.mode = "flip"}} = Positions(at.n, PayloadStride)
          /\ {g.pos : g \in {h \in sp : h.kind = "truncate"}} = Positions(at.n, PayloadStride)
-    [] at.t = "file" -> {g.pos : g \in sp} = Positions(at.n, FileStride)     \* every truncation point
+    [] at.t = "file" -> /\ {g.pos : g \in {h \in sp : h.cls = "file"}} = Positions(at.n, FileStride)     \* every truncation point
+                        /\ MultiFaults \subseteq sp
     [] at.t = "ent" -> sp # {}
 
 Emit == Damaged => PrintT("@@" \o ToJson([seed |-> seed, f |-> fault, base |-> at.base]))
